@@ -77,13 +77,15 @@ class UpdateReferences:
       # an element of a list which refers to a removed line is dropped
       self.__update_reference_in_list(value, oldref, newref)
       return
-    if newref is None:
-      newref = str(oldref)
     if isinstance(value, gfapy.Line):
       if value is oldref:
+        if newref is None:
+          newref = str(oldref)
         self._set_existing_field(field, newref, set_reference = True)
     elif isinstance(value, gfapy.OrientedLine):
       if value.line is oldref:
+        if newref is None:
+          newref = str(oldref)
         value.line = newref
 
   def __update_reference_in_list(self, lst, oldref, newref):
